@@ -111,19 +111,41 @@ def norm_scale_free(rule, fname, out, hom, where):
         d = hom.deg(n.args[0])
         rule.require(True if d in (0, "any") else (None if d is None else False), f"{fname} norm of {T.show(n.args[0], 2)}", f"argument has degree {d} in the state unit",
                      f"the Euclidean norm is taken of a quantity of degree {d} in the state unit: its squares overflow for badly scaled states (1e300) although the norm is representable", where_of(n, where))
-        # a state-sized vector made unit-free by dividing by a scalar of its own unit is only safe if that scalar bounds every entry: the largest magnitude max|x_i|
+        # jnp.linalg.norm squares its argument: the entries must be bounded, i.e. the vector divided by its own largest magnitude -- being free of the state unit
+        # is not enough (f / tolerance is unit-free and still of order 1e160 for a fast field with tight tolerances)
         a = n.args[0]
-        if isinstance(a, T.Term) and a.op == "div" and hom.deg(a.args[0]) not in (0, "any", None) and any(y is a.args[0] for y in T.subterms(a.args[1])):
-            x, m = a.args
-            core = m
-            if isinstance(core, T.Term) and core.op in ("np.where", "ite") and len(core.args) == 3:
-                core = core.args[1]  # where(m > 0, m, 1): the guard of the all-zero vector
-            if not (isinstance(core, T.Term) and core.op in ("np.amax", "np.max", "np.amin", "np.min", "np.mean", "np.sum", "np.median", "linalg.vector_norm")):
-                continue  # an elementwise divisor (the tolerance scaling atol + |y| rtol) is the business of R-C18-3
-            okm = isinstance(core, T.Term) and ((core.op == "np.amax" and isinstance(core.args[0], T.Term) and core.args[0].op == "np.abs" and core.args[0].args[0] is x)
-                                                or (core.op == "linalg.vector_norm" and core.args[0] is x and str(core.kwargs.get("order")) in ("inf", "np.inf")))
-            rule.require(okm, f"{fname} normaliser of {T.show(x, 2)}", "divided by its largest magnitude max|x_i|: every entry of the normalised vector lies in [-1, 1]",
+        found = _self_normaliser(a)
+        rule.require(found is not None, f"{fname} norm of {T.show(a, 2)} is taken of a self-normalised vector", "x divided by a scalar reduction of x",
+                     f"the Euclidean norm is taken of {T.show(a, 3)}, whose entries are not bounded: tolerance-scaled values overflow when squared although the norm (and the step) are ordinary doubles", where_of(n, where))
+        if found is not None:
+            xz, core, m = found
+            okm = isinstance(core, T.Term) and ((core.op == "np.amax" and isinstance(core.args[0], T.Term) and core.args[0].op == "np.abs" and nf.norm(core.args[0].args[0]) == xz)
+                                                or (core.op == "linalg.vector_norm" and nf.norm(core.args[0]) == xz and str(core.kwargs.get("order")) in ("inf", "np.inf")))
+            rule.require(okm, f"{fname} normaliser of {nf.show(xz)[:60]}", "divided by its largest magnitude max|x_i|: every entry of the normalised vector lies in [-1, 1]",
                          f"the vector is divided by {T.show(m, 4)}, which does not bound the magnitude of every entry (a large negative entry is not seen by a signed maximum): the squares can overflow or the quotient can be 0/inf", where_of(n, where))
+
+
+_REDUCTIONS = ("np.amax", "np.max", "np.amin", "np.min", "np.mean", "np.sum", "np.median", "linalg.vector_norm")
+
+
+def _self_normaliser(a):
+    """(normal form of x, reduction r(x), divisor m)  if  a == x / m  for a scalar m built from a reduction of x (zero-guard allowed), whatever the spelling
+    (x / m, x * (1 / m), ...): multiplying a by m cancels every occurrence of m."""
+    if not isinstance(a, T.Term):
+        return None
+    cands = []
+    for t in T.subterms(a):
+        if isinstance(t, T.Term) and t.op in _REDUCTIONS:
+            cands.append((t, t))
+    for t in T.subterms(a):
+        if isinstance(t, T.Term) and t.op in ("np.where", "ite") and len(t.args) == 3 and isinstance(t.args[1], T.Term) and t.args[1].op in _REDUCTIONS:
+            cands.append((t, t.args[1]))  # where(r > 0, r, 1): the guard of the all-zero vector
+    # prefer the guarded form (it contains the bare reduction)
+    for m, core in sorted(cands, key=lambda mc: -len(list(T.subterms(mc[0])))):
+        z = nf.norm(T.mk("mul", (a, m)))
+        if not any(x is m or x is core for mono in z for b, _e in mono for x in T.subterms(b)):
+            return z, core, m
+    return None
 
 
 # ---------------------------------------------------------------------------
@@ -136,6 +158,29 @@ def norm_scale_free(rule, fname, out, hom, where):
 _ARITH_OPS = {"add", "sub", "mul", "div", "neg", "pow", "np.sqrt", "np.asarray", "np.power"}
 
 
+def _safe_norm_arg(t):
+    """z with  t == |z|_2  if t is a Euclidean norm times / divided by a provably non-negative scalar:  c |y| = |c y|  for c >= 0.
+    This covers the overflow-safe spelling  m * |x / m|  with m = max|x_i| (1 for the zero vector) and its variants; else None."""
+    if not isinstance(t, T.Term):
+        return None
+
+    def plain_norm(n):
+        return isinstance(n, T.Term) and n.op == "linalg.vector_norm" and not {k: v for k, v in n.kwargs.items() if v is not None} and len(n.args) == 1
+
+    def nonneg(c):
+        iv = B.Bounds(B.Env()).iv(c)
+        return iv is not None and (getattr(iv, "pos", False) or (iv.lo is not None and iv.lo >= 0))
+
+    if t.op == "mul" and len(t.args) == 2:
+        for c, nrm in (t.args, t.args[::-1]):
+            if plain_norm(nrm) and not plain_norm(c) and isinstance(c, T.Term) and nonneg(c):
+                z = T.mk("mul", (c, nrm.args[0]))
+                # only the self-normalising spelling is folded: the scalar must cancel (otherwise c |y| is left as it is, one canonical form per value)
+                if not any(x is c for x in T.subterms(nf.canon(z))):
+                    return z
+    return None
+
+
 def _ckey(t, table):
     from fractions import Fraction
 
@@ -144,11 +189,19 @@ def _ckey(t, table):
         return ("num", n)
     if not isinstance(t, T.Term):
         return ("py", repr(t))
+    sx = _safe_norm_arg(t)
+    if sx is not None:
+        return _ckey(T.mk("linalg.vector_norm", (sx,)), table)
     if t.op in _ARITH_OPS:
         # replace the maximal non-arithmetic sub-expressions by atoms named after their canonical key
         def repl(x):
             if nf._num(x) is not None or not isinstance(x, T.Term):
                 return x
+            if _safe_norm_arg(x) is not None:
+                k = _ckey(x, table)
+                if k not in table:
+                    table[k] = T.atom(f"@{len(table)}")
+                return table[k]
             if x.op in _ARITH_OPS:
                 return T.mk(x.op, tuple(repl(a) for a in x.args), kwargs={k: repl(v) for k, v in x.kwargs.items()})
             k = _ckey(x, table)
